@@ -181,3 +181,55 @@ Proof.
   { apply (even_decomp (count w_in (ws s))); [|apply I]. rewrite <- (ai_ac _ I). rewrite Q. exact Ev. }
   pose proof (ai_ac _ I). lia.
 Qed.
+
+
+(* ---- a Close on the close_notify path never coexists with a Write inside the record layer ---- *)
+Definition NInv (s : cst) : Prop :=
+  forall j p, nth_error (cs s) j = Some p -> on_notify_path p = true -> count w_in (ws s) = 0.
+
+Lemma notify_won : forall p, on_notify_path p = true -> c_won p = true.
+Proof. intros [| | [|x] | | |]; simpl; intros; auto; discriminate. Qed.
+
+Lemma count_pos : forall A (f : A -> bool) l j p, nth_error l j = Some p -> f p = true -> 1 <= count f l.
+Proof.
+  unfold count. induction l; intros [|j] p H F; simpl in *; try discriminate.
+  - inversion H; subst. rewrite F. simpl. lia.
+  - specialize (IHl _ _ H F). destruct (f a); simpl; lia.
+Qed.
+
+Lemma wstep_ninv : forall s i, AInv s -> NInv s -> NInv (wstep s i).
+Proof.
+  intros s i I N j p Hj Hp.
+  assert (Hcs : cs (wstep s i) = cs s).
+  { unfold wstep. destruct (nth_error (ws s) i) as [[|x| | |]|]; simpl; auto;
+      [destruct (Nat.odd (ac s))|destruct (ac s =? x)]; reflexivity. }
+  rewrite Hcs in Hj. pose proof (N _ _ Hj Hp) as Z.
+  assert (C : closed_bit s = true).
+  { unfold closed_bit. pose proof (count_pos _ c_won _ _ _ Hj (notify_won _ Hp)) as P. pose proof (ai_one _ I).
+    rewrite (ai_ac _ I). replace (count c_won (cs s)) with 1 by lia. rewrite Z. reflexivity. }
+  destruct (closed_no_entry s i I C) as [L _]. lia.
+Qed.
+
+Lemma cstep_ninv : forall s j, AInv s -> NInv s -> NInv (cstep s j).
+Proof.
+  intros s j I N k p Hk Hp. unfold cstep in *.
+  destruct (nth_error (cs s) j) as [[|x|x| | |]|] eqn:E; simpl in *; try (eapply N; eauto; fail).
+  - destruct (Nat.odd (ac s)); simpl in *; apply nth_error_upd_cases in Hk;
+      (destruct Hk as [[_ Hk]|Hk]; [subst p; discriminate | eapply N; eauto]).
+  - destruct (ac s =? x) eqn:Q; simpl in *; apply nth_error_upd_cases in Hk.
+    + destruct Hk as [[_ Hk]|Hk]; [|eapply N; eauto]. subst p. apply Nat.eqb_eq in Q.
+      destruct x; [|discriminate]. pose proof (ai_ac _ I). lia.
+    + destruct Hk as [[_ Hk]|Hk]; [subst p; discriminate | eapply N; eauto].
+  - apply nth_error_upd_cases in Hk. destruct Hk as [[_ Hk]|Hk]; [|eapply N; eauto].
+    subst p. destruct x; simpl in Hp; [|discriminate]. eapply (N j (CWon 0)); eauto.
+Qed.
+
+Lemma ainit_ninv : forall nw nc, NInv (ainit nw nc).
+Proof. intros nw nc j p H. simpl in H. apply nth_error_In in H. apply repeat_spec in H. subst. discriminate. Qed.
+
+Lemma arun_ninv : forall sched s, AInv s -> NInv s -> NInv (arun s sched).
+Proof.
+  induction sched as [|[i|j] r IH]; simpl; intros s I N; auto.
+  - apply IH; [apply wstep_inv | apply wstep_ninv]; auto.
+  - apply IH; [apply cstep_inv | apply cstep_ninv]; auto.
+Qed.
